@@ -271,5 +271,30 @@ F7Case == LET vals == [l \in {"en", "fr"} |-> F7Vals(l)] IN
           ProjectCase("fk-arm-shapes", [def |-> "en", locs |-> <<"en", "fr">>, inh |-> << >>, vals |-> vals],
                       [k \in DOMAIN vals["en"] |-> k], "none")
 
-Families == <<F2Case, F3Plural, F6Case, F7Case, F8Case, F9Case>> \o F3Cases \o F4Cases \o F5Cases
+\* F10: references INSIDE plural forms and range arms (cardinal and ordinal; the forms are merged into one key before the references
+\* are resolved, so the place a reference was written at has moved), and references to those plurals with a literal count.
+WSym == <<"w">>
+F10Keys(l) ==
+    [w  |-> Val(<<T(LocTag[l] \o <<"w">>)>>),
+     pf |-> [k |-> "plurals", ty |-> "cardinal", ck |-> Cnt,
+             forms |-> [one |-> <<T(<<"o","n","e","SP">>), Fk(WSym, <<>>)>>, other |-> <<Fk(WSym, <<>>), T(<<"SP","m","a","n","y","SP">>), V(Cnt)>>]],
+     qf |-> [k |-> "plurals", ty |-> "ordinal", ck |-> Cnt,
+             forms |-> [one |-> <<Fk(WSym, <<>>), T(<<"s","t">>)>>, two |-> <<T(<<"n","d">>)>>, few |-> <<T(<<"r","d","SP">>), Fk(WSym, <<>>)>>,
+                        other |-> <<T(<<"t","h">>)>>]],
+     rf |-> [k |-> "ranges", ty |-> "i32", ck |-> Cnt,
+             b |-> << [alts |-> <<Exact(3)>>, v |-> <<T(<<"z","COLON">>), Fk(WSym, <<>>)>>],
+                      [alts |-> <<Wild>>,     v |-> <<Fk(WSym, <<>>), T(<<"COLON">>), V(Cnt)>>] >>],
+     p1 |-> Val(<<Fk(<<"p","f">>, <<NumTok(<<"1">>, "1")>>)>>),
+     p5 |-> Val(<<Fk(<<"p","f">>, <<NumTok(<<"2">>, "2")>>)>>),
+     q1 |-> Val(<<Fk(<<"q","f">>, <<NumTok(<<"1">>, "1")>>)>>),
+     q2 |-> Val(<<Fk(<<"q","f">>, <<NumTok(<<"2">>, "2")>>)>>),
+     q3 |-> Val(<<Fk(<<"q","f">>, <<NumTok(<<"0">>, "0")>>)>>),
+     q4 |-> Val(<<T(<<"1","1">>), Fk(<<"q","f">>, <<NumTok(<<"1","1">>, "11")>>)>>),
+     r3 |-> Val(<<Fk(<<"r","f">>, <<NumI32(3)>>)>>),
+     r5 |-> Val(<<Fk(<<"r","f">>, <<NumI32(5)>>)>>),
+     pm |-> Val(<<Fk(<<"p","f">>, <<ArgP(Cnt, <<V(M1)>>)>>)>>)]
+F10Case == ProjectCase("fk-inside-forms", [def |-> "en", locs |-> <<"en", "fr">>, inh |-> << >>, vals |-> [l \in {"en", "fr"} |-> F10Keys(l)]],
+                       [k \in DOMAIN F10Keys("en") |-> k], "none")
+
+Families == <<F2Case, F3Plural, F6Case, F7Case, F8Case, F9Case, F10Case>> \o F3Cases \o F4Cases \o F5Cases
 =============================================================================
